@@ -9,6 +9,7 @@ and item preparers) and the Lean Impl model `SpecVerif.C03.step` (Drivers/C03.le
 written reference type checker (plain recursion over `typing.get_origin/get_args`) applied to every
 managed attribute of every live instance.
 """
+import json
 import typing
 
 import corr_C05 as C5
@@ -77,6 +78,14 @@ FAMILY_ELEM = {
             A(15, V.opt(["list", INT]), "value", "N"),
             A(16, ["union", ["dict", STR, INT], INT], "value", "i0"),
             A(17, V.opt(["set", STR])),
+            # validated types at attribute, element and dict-value positions (one type object per predicate, shared)
+            A(18, ["valid", 0, INT], "value", "i1"),
+            A(19, ["list", ["valid", 0, INT]]),
+            A(20, ["dict", STR, ["valid", 0, INT]]),
+            A(21, V.opt(["valid", 1, INT]), "value", "N"),
+            A(22, ["valid", 2, STR], "value", "s100"),
+            A(23, ["set", ["valid", 3, INT]]),
+            A(24, ["valid", 3, INT], "value", "i2"),
         ]},
         {"id": 2, "kind": "plain", "base": 0, "over": {"0": "L 1 i9"}},
         {"id": 3, "kind": "spec", "base": 0, "key": None, "attrs": [A(14, ["list", INT], "value", "L 0")]},
@@ -88,7 +97,7 @@ FAMILY_ELEM = {
 # ---------------------------------------------------------------------------
 
 BAD_POOL = ["N", "s100", "s102", "f3", "i1", "i-4", "L 0", "L 1 i1", "L 1 s100", "D 1 s100 i1", "D 1 i1 s100", "T",
-            "L 1 N", "S 1 i1", "S 1 s100"]
+            "L 1 N", "S 1 i1", "S 1 s100", "i13", "i0", "s999", "i-1"]
 
 
 def plain(tok, fam):
@@ -103,10 +112,13 @@ def bad_for(rng, fam, ty, scalar_only=False, no_iter=False):
             continue
         if no_iter and (t[0] in "LSD" or t[0] == "s"):
             continue
-        if t == "T" and ty[0] in ("int", "float", "union", "lit", "list", "set", "dict"):
+        if t == "T" and ty[0] in ("int", "float", "union", "lit", "list", "set", "dict", "valid"):
             continue
         if t == "N" and ty[0] in ("list", "set", "dict"):
             continue  # None is normalised into the empty collection
+        if t[0] == "D" and "valid" in json.dumps(ty):
+            continue  # a dict aimed at a validated type is read as constructor arguments: RuntimeError ("should not be
+            #           instantiated"), nothing stored -- reported separately, kept out of the TypeError/ValueError stream
         try:
             if not C5.p_conforms(fam, ty, plain(t, fam)):
                 cands.append(t)
@@ -365,6 +377,114 @@ def gen_case(rng, fam, fname, nops, malformed):
 
 WHOLE_ROUTES = ("ctor", "with", "set", "upd", "tra", "UPD", "TRA")
 
+VALID_ROUTES = ("ctor", "with", "set", "upd", "tra", "UPD", "TRA", "ewith", "eupd", "etra", "mwith", "mupd", "mtra")
+
+
+def valid_family(tag, pid, base):
+    """a family of its own per tag (own validated type object, fresh verdict history in this process)"""
+    vt = ["valid", pid, base]
+    return {"tag": tag, "classes": [
+        {"id": 1, "kind": "spec", "base": None, "key": None, "attrs": [A(0, vt), A(1, ["list", vt])]},
+        {"id": 0, "kind": "spec", "base": None, "key": None, "attrs": [
+            A(0, vt), A(1, ["list", vt]), A(2, ["dict", STR, vt]), A(3, V.opt(vt), "value", "N"), A(4, vt), A(5, ["spec", 1])]},
+        {"id": 2, "kind": "spec", "base": 0, "key": None, "attrs": [A(6, vt)]},
+    ]}
+
+
+def valid_op(route, a_scalar, good, bad, is_bad, fl):
+    """one call sending a same-class value with the given verdict through `route`"""
+    v = bad if is_bad else good
+    tag = {"bad": "validated-" + route} if is_bad else {}
+    if route == "with" or route == "upd":
+        return dict({"k": route, "fl": fl, "a": a_scalar, "v": v, "kw": []}, **tag)
+    if route == "set":
+        return dict({"k": "set", "a": a_scalar, "v": v}, **tag)
+    if route == "tra":
+        return dict({"k": "tra", "fl": fl, "a": a_scalar, "f": "cst " + v, "kt": []}, **tag)
+    if route == "UPD":
+        return dict({"k": "UPD", "fl": fl, "v": "M", "kw": [[a_scalar, v]]}, **tag)
+    if route == "TRA":
+        return dict({"k": "TRA", "fl": fl, "f": None, "kt": [[a_scalar, "cst " + v]]}, **tag)
+    if route == "ewith":
+        return dict({"k": "ewith", "fl": fl, "a": 1, "item": v, "index": "M", "ins": 0}, **tag)
+    if route == "eupd":
+        return dict({"k": "eupd", "fl": fl, "a": 1, "voi": "i0", "new": v, "by": "y"}, **tag)
+    if route == "etra":
+        return dict({"k": "etra", "fl": fl, "a": 1, "voi": "i0", "f": "cst " + v, "by": "y"}, **tag)
+    if route == "mwith":
+        return dict({"k": "mwith", "fl": fl, "a": 2, "key": "s100", "v": v}, **tag)
+    if route == "mupd":
+        return dict({"k": "mupd", "fl": fl, "a": 2, "key": "s100", "new": v}, **tag)
+    if route == "mtra":
+        return dict({"k": "mtra", "fl": fl, "a": 2, "key": "s100", "f": "cst " + v}, **tag)
+    raise ValueError(route)
+
+
+def valid_order_cases(rng):
+    """
+    Value-dependent annotations: values of ONE Python class with different verdicts, through every route, in both
+    orders, in one process. For every first route a family of its own (fresh validated type object) is used, the
+    very first check of that type is through that route, then every route follows with the opposite and the same
+    verdict; further cases revisit the same family from other classes / instances / attributes.
+    """
+    specs = [(0, INT, C5.VALID_GOOD[0], C5.VALID_BAD[0]), (3, INT, C5.VALID_GOOD[3], C5.VALID_BAD[3]),
+             (2, STR, C5.VALID_GOOD[2], C5.VALID_BAD[2])]
+    needs_scalar = ("tra", "TRA")
+    needs_elem = ("eupd", "etra")
+    needs_key = ("mupd", "mtra")
+    for pid, base, goods, bads in specs:
+        for first_bad in (False, True):
+            for first in VALID_ROUTES:
+                if first_bad and first in needs_scalar + needs_elem + needs_key:
+                    continue   # these routes need a stored (hence already checked) value to start from
+                fam = valid_family(f"{pid}-{first}-{int(first_bad)}", pid, base)
+                good, bad = rng.choice(goods), rng.choice(bads)
+                have = {"s0": False, "s4": False, "elem": False, "key": False}
+                ops = []
+
+                def emit(route, a, is_bad):
+                    # preconditions of the addressing part (seeded with conforming values)
+                    if route in needs_scalar and not have[f"s{a}"]:
+                        ops.append({"k": "set", "a": a, "v": rng.choice(goods)})
+                        have[f"s{a}"] = True
+                    if route in needs_elem and not have["elem"]:
+                        ops.append({"k": "ewith", "fl": "i", "a": 1, "item": rng.choice(goods), "index": "M", "ins": 0})
+                        have["elem"] = True
+                    if route in needs_key and not have["key"]:
+                        ops.append({"k": "mwith", "fl": "i", "a": 2, "key": "s100", "v": rng.choice(goods)})
+                        have["key"] = True
+                    ops.append(valid_op(route, a, rng.choice(goods), rng.choice(bads), is_bad, rng.choice(["i", "a"])))
+                    if not is_bad:
+                        if route in ("with", "set", "upd", "UPD", "tra", "TRA"):
+                            have[f"s{a}"] = True
+                        if route == "ewith":
+                            have["elem"] = True
+                        if route == "mwith":
+                            have["key"] = True
+
+                if first == "ctor":
+                    case0 = {"family": fam, "fname": "valid", "cls": 0, "init": [[0, bad if first_bad else good]], "ops": [],
+                             "stream": "directed", "origin": "directed-validated"}
+                    if first_bad:
+                        case0["init_bad"] = True
+                    yield case0
+                else:
+                    emit(first, 0, first_bad)
+                # now every route: opposite verdict first, then the same verdict, then alternating
+                for verdict_bad in (not first_bad, first_bad, True, False):
+                    for route in VALID_ROUTES[1:]:
+                        emit(route, rng.choice([0, 4]), verdict_bad)
+                yield {"family": fam, "fname": "valid", "cls": rng.choice([0, 2]), "init": [], "ops": ops,
+                       "stream": "directed", "origin": "directed-validated"}
+                # the same type object seen from a nested class and through the constructor again
+                yield {"family": fam, "fname": "valid", "cls": 2, "init": [[6, rng.choice(bads)]], "ops": [], "init_bad": True,
+                       "stream": "directed", "origin": "directed-validated"}
+                yield {"family": fam, "fname": "valid", "cls": 2, "init": [[6, rng.choice(goods)], [0, rng.choice(goods)]],
+                       "ops": [valid_op("with", 6, rng.choice(goods), rng.choice(bads), True, "-"),
+                               {"k": "with", "fl": "i", "a": 5, "v": "M", "kw": [[0, rng.choice(bads)]], "bad": "validated-nested"},
+                               {"k": "with", "fl": "i", "a": 5, "v": "M", "kw": [[0, rng.choice(goods)]]}],
+                       "stream": "directed", "origin": "directed-validated"}
+
 
 def directed_bad_cases(rng, fam, fname):
     """
@@ -415,6 +535,7 @@ def gen_cases(tier, rng):
     fams = [("elem", FAMILY_ELEM), ("main", C5.FAMILY_MAIN), ("prep", C5.FAMILY_PREP), ("falsy", C5.FAMILY_FALSY)] + [
         (f"rnd{i}", C5.random_family(rng)) for i in range(nfam)]
     if tier != "search":
+        yield from valid_order_cases(rng)
         for fname, fam in fams[:4] + (fams[4:6] if tier == "quick" else fams[4:]):
             yield from directed_bad_cases(rng, fam, fname)
     if tier == "search":
@@ -524,6 +645,8 @@ def ref_conforms(value, ann):
     """does `value` conform to the annotation `ann`?  Plain recursion over typing.get_origin/get_args."""
     if ann is typing.Any:
         return True
+    if id(ann) in V.VALID_REGISTRY and V.VALID_REGISTRY[id(ann)][0] is ann:
+        return bool(V.VALID_PRED[V.VALID_REGISTRY[id(ann)][1]](value))   # not the library's isinstance hook
     if ann is None or ann is type(None):
         return value is None
     origin = typing.get_origin(ann)
